@@ -123,6 +123,14 @@ class State:
             self.heap.sym[name] = z3.Const(f"heap0_{name}", z3.ArraySort(z3.IntSort(), content_sort))
         return self.heap.sym[name]
 
+    def ghost_get(self, name: str, sort):
+        if name not in self.heap.sym:
+            self.heap.sym[name] = z3.Const(f"heap0_{name}", sort)
+        return self.heap.sym[name]
+
+    def ghost_set(self, name: str, term):
+        self.heap.sym[name] = term
+
     def alloc_addr(self, heapname: str, content, content_sort):
         """Allocate a fresh address in a symbolic heap holding ``content``."""
         h = self.symheap(heapname, content_sort)
@@ -143,6 +151,13 @@ class State:
         if z3.is_true(f):
             return
         self.pc.append(f)
+        self._add_solver(f)
+
+    def _add_solver(self, f):
+        """The feasibility solver only sees the quantifier-free part of the path condition:
+        a weaker hypothesis set can only fail to prune (sound), and stays fast."""
+        if _has_quantifier(f):
+            return
         self.solver.add(f)
 
     def feasible(self, extra=None) -> bool:
@@ -162,13 +177,31 @@ class State:
         taken = c == 0
         f = cond if taken else z3.Not(cond)
         self.pc.append(f)
-        self.solver.add(f)
+        self._add_solver(f)
         if self.solver.check() == z3.unsat:
             raise PathEnd
         return taken
 
     def choose(self, n: int) -> int:
         return self.dec.choose(n)
+
+
+_hq_cache: dict = {}
+
+
+def _has_quantifier(f) -> bool:
+    seen = set()
+    stack = [f]
+    while stack:
+        t = stack.pop()
+        i = t.get_id()
+        if i in seen:
+            continue
+        seen.add(i)
+        if z3.is_quantifier(t):
+            return True
+        stack.extend(t.children())
+    return False
 
 
 def all_hyps(pc: list) -> list:
